@@ -95,3 +95,11 @@ def divisors(n):
 SMALL_SHAPES = [(8,), (16,), (2, 8), (8, 2), (4, 16), (16, 4), (3, 32), (32, 3), (1, 16), (16, 1), (2, 4, 8), (4, 1, 8),
                 (2, 3, 4, 8), (4, 8, 8, 16), (5, 7), (7, 5), (6, 6), (12, 12), (2, 2, 2, 2), (64, 3), (3, 64), (128, 2),
                 (2, 256)]
+
+
+def int8pack_crash_class(dtype, weight_qtype_name, in_features, quantized_activations=False):
+    """Known native crash class of this torch build (finding C07-F33): bfloat16 float activations x int8 weights reach
+    torch._weight_int8pack_mm when in_features % 4 == 0; it segfaults (or corrupts memory) unless in_features % 16 == 0.
+    Workloads of other properties steer around it; C07 probes it in sacrificial worker processes."""
+    return dtype == torch.bfloat16 and str(weight_qtype_name) == "qint8" and not quantized_activations and \
+        in_features % 4 == 0 and in_features % 16 != 0
